@@ -11,7 +11,10 @@ ORACLES = tuple("fsck,internal".split(","))
 
 
 def run(ctx):
-    _hist.run_histories(ctx, ORACLES, nprog=ctx.scale(24, 400), nops=ctx.scale(30, 80), remount_every=False)
+    # (a volume at a non-zero offset of its device among the mounts: the boot sector and its FAT32 backup are those of the VOLUME — C05-m8 copied
+    # the backup from sector 0 of the device)
+    _hist.run_histories(ctx, ORACLES, nprog=ctx.scale(24, 400), nops=ctx.scale(30, 80), remount_every=False,
+                        mounts=[dict(encoding="ibm437", lazy_load=True), dict(encoding="cp850", lazy_load=False), dict(encoding="ibm437", lazy_load=True, offset=4096)])
 
 
 def extra_search(ctx):
